@@ -53,3 +53,6 @@ pub mod substream {
         )
     }
 }
+
+/// Scripted transport + façade over the real transport manager.
+pub mod scripted;
